@@ -108,7 +108,7 @@ class Ctx:
         d.mkdir(parents=True, exist_ok=True)
         body = dict(property=self.prop, signature=sig, case=case, detail=detail)
         path = d / (sha(body) + ".json")
-        if len(self.violations) < 400:
+        if len(self.violations) < int(os.environ.get("VERIF_REPLAY_CAP", "400")):
             path.write_text(json.dumps(body, indent=1, default=_jdefault))
         self.violations.append((sig, str(path)))
         return True
